@@ -236,6 +236,31 @@ func runC19(c *ctx) {
 		c.Class("hundreds-of-messages")
 		c19Eval(c, c19Case{Parts: parts, Seps: seps})
 	}
+	// thousands of messages that each draw a warning (no direction), and thousands of errors in the last part only:
+	// every message of every part comes back, however many diagnostics there are
+	for _, n := range []int{1500, 2500, c.pick(4200, 9000)} {
+		warned := strings.Repeat("S1F1 W .\n", n)
+		c.Class("thousands-of-warnings")
+		c19Eval(c, c19Case{Parts: []string{warned, warned}, Seps: []string{"", ""}})
+		c19Eval(c, c19Case{Parts: []string{warned, "S2F1 W H->E last <U1 1> .", warned}, Seps: []string{"\n", "\n", ""}})
+	}
+	// characters whose upper or lower case has another byte length, in a comment, in a message name, in a string of
+	// an earlier part (what follows is read at the offsets of the text as written)
+	for _, ch := range []string{"\u0131", "\u017f", "\u0250", "\u0251", "\u2c65", "\u2c66", "\u023f", "\u0240", "\u026b", "\u1e9e", "\u0149", "\u01f0", "\u0390", "\ufb01", "\u212a", "\u2126", "\u0130"} {
+		first := []string{
+			"S1F1 W H->E <L <U1 1>> . // kap" + ch + " kilidi",
+			"S1F1 W H->E na" + ch + "me .",
+			"S1F1 H->E " + ch + " <L> . // " + ch + ch + ch,
+			"// " + ch + "\nS1F1 W .",
+		}
+		for _, a := range first {
+			for _, b := range []string{"S12F7 W\n.", "S12F7 W H->E <L <A \"x\"> <U2 513>> .", "s3f5 w h<-e <boolean t f> ."} {
+				c.Class("case-mapping-changes-byte-length")
+				c19Eval(c, c19Case{Parts: []string{a, b}, Seps: []string{"\n", ""}})
+				c19Eval(c, c19Case{Parts: []string{a, a, b}, Seps: []string{"\n", "\n", "\n"}})
+			}
+		}
+	}
 	// every message uses a name and the same name with digits appended (q, q0..q12, q100): names are scoped by
 	// message, not by any spelling that glues a message number to them
 	for _, n := range []int{12, 25, 40, 120} {
@@ -285,7 +310,7 @@ func runC19(c *ctx) {
 			}
 		}
 	}
-	c.Required = []string{"edge-spellings", "n-variables-then-reuse", "parts=2", "parts=3", "parts=4", "shared-variable-names", "ellipses-in-several-parts", "with-warnings", "header-kind-pairs", "same-literal-other-type", "hundreds-of-messages", "parts=257", "parts=300", "parts=40", "parts=120", "digit-suffixed-names-in-every-message"}
+	c.Required = []string{"edge-spellings", "n-variables-then-reuse", "parts=2", "parts=3", "parts=4", "shared-variable-names", "ellipses-in-several-parts", "with-warnings", "header-kind-pairs", "same-literal-other-type", "hundreds-of-messages", "parts=257", "parts=300", "parts=40", "parts=120", "digit-suffixed-names-in-every-message", "thousands-of-warnings", "case-mapping-changes-byte-length", "parts=3"}
 }
 
 func replayC19(c *ctx, raw json.RawMessage) {
